@@ -1983,3 +1983,12 @@ Proof. intros H. rewrite cc_parse_exact in H. injection H as <-. apply spec_cc_w
 Lemma pack_joined st : cc_wf st -> cc_ok st = true -> other st = [] ->
   cc_pack st = joinr (known st) /\ Forall good_item (known st) /\ spec_cc (known st) = st.
 Proof. intros Hwf Hok Ho. split; [now apply cc_pack_known|]. split; [now apply known_good|now apply spec_known]. Qed.
+
+Lemma ex_invalid_all : forall F, strict_numeric F ->
+  forall it, In it (list_items 44 ex_invalid) -> d_type it = F -> d_num it = None.
+Proof.
+  intros F _ it Hin _.
+  assert (E : forallb (fun i => match d_num i with None => true | Some _ => false end) (list_items 44 ex_invalid) = true)
+    by (vm_compute; reflexivity).
+  rewrite forallb_forall in E. specialize (E it Hin). destruct (d_num it); [discriminate|reflexivity].
+Qed.
